@@ -26,6 +26,8 @@ type Doc struct {
 	ID      [2]string // hex strings without <>
 	Extra   string    // extra trailer entries
 	Eol     string
+	// FreeGen is the generation written for free entries other than object 0 (a deleted object has generation >= 1).
+	FreeGen int
 	// Override replaces computed numbers of the xref-stream serialisation by literal text:
 	// keys Size, Index (array text), N, First; ObjStmPad / XRefPad append that many bytes to the decoded
 	// object stream body / cross-reference stream data.
@@ -110,7 +112,7 @@ func (d *Doc) Bytes() []byte {
 		if _, ok := d.objs[n]; ok {
 			fmt.Fprintf(&b, "%010d %05d n \n", off[n], 0)
 		} else {
-			g := 0
+			g := d.FreeGen
 			if n == 0 {
 				g = 65535
 			}
